@@ -179,8 +179,10 @@ func VerifC14Search(kind, m, n, keyMode, tstMode int) {
 		}
 	}
 	// known findings
-	vrt.Carve("C14-search-wrong-index", cls == zzC14BValid && ln == 0 && 0 < s2)
-	vrt.Carve("C14-search-wrong-index", cls == zzC14BValid && c.feMode == 2 && 0 < ln && want == s2)
+	// (a) an empty pattern: the index is relative to the :start2 slice;
+	// (b) :from-end never tries the match that begins at :start2
+	vrt.Carve("C14-search-wrong-index", cls == zzC14BValid &&
+		((ln == 0 && 0 < s2) || (c.feMode == 2 && 0 < ln && want == s2)))
 	scope := slip.NewScope()
 	form := slip.List{slip.Symbol("search"), zzC14Quote(zzC14Seq(kind, c.a)), zzC14Quote(zzC14Seq(kind, c.b))}
 	form = append(form, c.keywords()...)
